@@ -93,7 +93,7 @@ pub fn hs_iter_find<'a, F: Fn(&&'a String) -> bool>(s: &'a HashSet<String>, f: F
 // a String with a given content (total by extensionality)
 pub uninterp spec fn string_of(s: Seq<char>) -> String;
 pub broadcast axiom fn axiom_string_of(s: Seq<char>)
-    ensures #[trigger] string_of(s)@ == s;
+    ensures (#[trigger] string_of(s))@ == s;
 
 // class S: String::ends_with(&String), String::contains(char)
 #[verifier::external_body]
